@@ -467,6 +467,10 @@ def oracle_store(o, program, refres):
         if nid not in per:
             out.append(('final-value-not-saved', f'{nid}'))
             continue
+        if per[nid][-1].get('done') is None:
+            # a (slow) store had been handed the value but the call never returned: nothing was stored
+            out.append(('final-value-save-never-completed',
+                        f'{nid}: save() was entered but the run returned before it completed (the call was cancelled)'))
         if R.canon(per[nid][-1]['value']) != R.canon(refres['finals'][nid]):
             out.append(('saved-value-differs-from-delivered',
                         f'{nid}: saved {R.canon(per[nid][-1]["value"])} final {R.canon(refres["finals"][nid])}'))
